@@ -1,2 +1,3 @@
 LINK := full
 KITS := chainkit
+CXXEXTRA := -I/repo/src/leveldb
